@@ -82,6 +82,9 @@ func c20Conn(t *Tape, sc *Scenario, idx int, pat int) (ConnScript, ConnBackendPl
 		cp.ParkRcpt = Dur(1+t.Intn(4)) * 400 * time.Microsecond
 	}
 	cs := ConnScript{DialAt: Dur(t.Intn(8)) * 500 * time.Microsecond, Lat: drawLat(t), Steps: steps, AcceptErrs: t.Pick(5, 1, 1, 1)}
+	if t.Chance(1, 8) {
+		cs.SrvFaults.FailWriteAt = 1 + t.Intn(8)
+	}
 	cs.defaults()
 	cs.AwaitTO = 2 * time.Second
 	cs.IdleEnd = 2 * time.Second
